@@ -78,8 +78,13 @@ Qed.
 
 Lemma py_str_int_eq n : Z.abs n < str_limit -> py_str_int n = Ok (str_of_Z n).
 Proof.
-  intros H. unfold py_str_int. fold str_limit. destruct (str_limit <=? Z.abs n) eqn:E; [lia|].
-  unfold str_of_Z. rewrite !py_digits_eq. reflexivity.
+  intros H. unfold py_str_int. cbv zeta. rewrite py_digits_eq.
+  assert (Hlen : zlen (digits (Z.abs n)) <= max_str_digits) by (apply digits_len_max; split; [lia|exact H]).
+  change py_int_max_str_digits with max_str_digits.
+  destruct (max_str_digits <? zlen (digits (Z.abs n))) eqn:E; [lia|].
+  unfold str_of_Z. destruct (n <? 0) eqn:En.
+  - rewrite Z.abs_neq by lia. reflexivity.
+  - rewrite Z.abs_eq by lia. reflexivity.
 Qed.
 
 Lemma str_limit_big : 1000 <= str_limit.
